@@ -272,6 +272,13 @@ def correlated_facts(fn, ev, IN, b, ef=None):
             cands = []
             for (db, di, kind) in defs:
                 if di == "term":
+                    tt1 = fn.blocks[db].term
+                    if tt1["k"] == "call" and tt1["fn"].get("path", "").split("::")[-1] == "from_residual" and tt1.get("dst") and not tt1["dst"].get("p"):
+                        # `?` propagating a failure: the value built is the failure variant (Err = 1 for Result, None = 0 for Option)
+                        rty = fn.locals[tt1["dst"]["l"]]["ty"]
+                        resid = 1 if "result::Result" in rty.split("<")[0] else (0 if "option::Option" in rty.split("<")[0] else None)
+                        if resid is not None and resid != val:
+                            continue
                     cands.append((db, di))
                     continue
                 rv1 = fn.blocks[db].stmts[di]["rv"]
